@@ -40,6 +40,8 @@ type HarnessSpec struct {
 type GenSpec struct {
 	IDL  string `json:"idl"`  // relative to /verif
 	Path string `json:"path"` // Go import path of the generated package
+	// NoPathFlag: run the generator as the repository's own go:generate lines do (without --path)
+	NoPathFlag bool `json:"no_path_flag"`
 }
 
 type PropertySpec struct {
@@ -206,7 +208,11 @@ func cmdCheck(args []string) {
 			continue
 		}
 		outFile := filepath.Join(scratch, "gen_"+sanitize(r.spec.Pkg)+".go")
-		cmd := exec.Command("go", "run", "-modfile="+modfile, "./meta/cmd/stub", "--idl", filepath.Join(root, g.IDL), "--output", outFile, "--path", g.Path)
+		genArgs := []string{"run", "-modfile=" + modfile, "./meta/cmd/stub", "--idl", filepath.Join(root, g.IDL), "--output", outFile}
+		if !g.NoPathFlag {
+			genArgs = append(genArgs, "--path", g.Path)
+		}
+		cmd := exec.Command("go", genArgs...)
 		cmd.Dir = *repo
 		cmd.Env = append(os.Environ(), "GOFLAGS=-mod=mod", "GOPROXY=off", "GOSUMDB=off", "GOTOOLCHAIN=local")
 		out, err := cmd.CombinedOutput()
